@@ -223,9 +223,10 @@ Definition determine_context (content : list N) (ln ch : N) (trigger : N) : cctx
           else match line with
                | [] => CDate
                | c0 :: _ =>
-                   if has_prefix_b dir_account line then CAccount
-                   else if has_prefix_b dir_commodity line then CCommodity
-                   else if has_prefix_b dir_apply_account line then CAccount
+                   (* a directive's argument starts behind the keyword (u16b is unclamped, as in the code) *)
+                   if has_prefix_b dir_account line && (zlen dir_account <=? u16b line ch) then CAccount
+                   else if has_prefix_b dir_commodity line && (zlen dir_commodity <=? u16b line ch) then CCommodity
+                   else if has_prefix_b dir_apply_account line && (zlen dir_apply_account <=? u16b line ch) then CAccount
                    else if has_prefix_b (bs "    ") line || has_prefix_b [9%N] line then determine_posting_context line ch
                    else if ((48 <=? c0) && (c0 <=? 57))%N then CPayee
                    else CDate
@@ -237,25 +238,17 @@ Definition determine_context (content : list N) (ln ch : N) (trigger : N) : cctx
 Definition clamp_col (line : list N) (ch : N) : Z :=
   let b := u16b line ch in if zlen line <? b then zlen line else b.
 
-Definition extract_account_prefix (content : list N) (ln ch : N) : list N :=
-  match nth_line content ln with
-  | None => []
-  | Some line =>
-      let before := trim_space_u (zfirstn (clamp_col line ch) line) in
-      match last_index 58 before with
-      | None => []
-      | Some lastColon =>
-          match last_index_any2 32 9 (firstn lastColon before) 0 None with
-          | None => firstn (S lastColon) before
-          | Some start => skipn (S start) (firstn (S lastColon) before)
-          end
-      end
-  end.
-
 Definition accounts_for_prefix (all : list (list N)) (byprefix : list (list N * list (list N))) (prefix : list N) : list (list N) :=
   match prefix with
   | [] => all
-  | _ => match alookup prefix byprefix with Some l => l | None => all end
+  | _ =>
+      (* the index is consulted case-insensitively, like the filter that follows (strings.ToLower on
+         both sides); the order of the union is that of the map iteration, the ranking sorts it *)
+      let pl := lower_runes prefix in
+      match flat_map (fun kv => if list_eqb N.eqb (lower_runes (fst kv)) pl then snd kv else []) byprefix with
+      | [] => all
+      | l => l
+      end
   end.
 
 Definition extract_current_tag_name (line : list N) (ch : N) : list N :=
@@ -361,6 +354,15 @@ Record analysis := mkAn {
   an_acc_counts : list (list N * Z); an_payee_counts : list (list N * Z);
   an_com_counts : list (list N * Z); an_tag_counts : list (list N * Z) }.
 
+
+(* extractAccountPrefix (/repo, repaired): what has been typed of the account name, up to its last
+   colon; not cut at a blank (account names may contain single blanks) *)
+Definition extract_account_prefix (content : list N) (ln ch : N) : list N :=
+  let typed := extract_query content ln ch CAccount in
+  match last_index 58 typed with
+  | None => []
+  | Some lastColon => firstn (S lastColon) typed
+  end.
 Definition candidates (c : cctx) (a : analysis) (content : list N) (ln ch : N) : list (list N) :=
   match c with
   | CAccount => accounts_for_prefix (an_accounts a) (an_byprefix a) (extract_account_prefix content ln ch)
